@@ -1010,10 +1010,18 @@ fn run_json_expr(env: &Environment, toks: &[String], start: usize) -> Vec<String
     };
     let mut o = vec!["0".to_string()];
     shape(&value, &mut o);
-    push_result(&mut o, env.render_named_str("a.txt", &format!("{{{{ ({expr})|tojson }}}}"), json_ctx(&d)));
-    push_result(&mut o, env.render_named_str("b.txt", &format!("{{{{ ({expr})|tojson(indent=2) }}}}"), json_ctx(&d)));
+    // each rendering on its own: a panic in one of them (reported as `1 98`) does not hide the others
+    let mut leg = |name: &str, src: String| match std::panic::catch_unwind(std::panic::AssertUnwindSafe(|| env.render_named_str(name, &src, json_ctx(&d)))) {
+        Ok(r) => push_result(&mut o, r),
+        Err(_) => {
+            o.push("1".into());
+            o.push("98".into());
+        }
+    };
+    leg("a.txt", format!("{{{{ ({expr})|tojson }}}}"));
+    leg("b.txt", format!("{{{{ ({expr})|tojson(indent=2) }}}}"));
     for name in ["c.json", "c.js", "c.yaml"] {
-        push_result(&mut o, env.render_named_str(name, &format!("{{{{ {expr} }}}}"), json_ctx(&d)));
+        leg(name, format!("{{{{ {expr} }}}}"));
     }
     o
 }
